@@ -341,3 +341,173 @@ func TestEnum(t *testing.T) {
 	}
 	pbt.MarkExhaustive("enum-all-t-n")
 }
+
+// ---- huge logs (all records identical, so the reference stays tractable up to 2^62 records)
+
+type hugeCase struct {
+	Tree bool
+	T, N int64
+	Mut  mutation
+}
+
+func genHugeSize(t *rapid.T, label string) int64 {
+	k := rapid.IntRange(20, 59).Draw(t, label+"k")
+	base := int64(1) << uint(k)
+	switch rapid.IntRange(0, 5).Draw(t, label+"shape") {
+	case 0:
+		return base + int64(rapid.IntRange(0, 6).Draw(t, label+"d")) // just above a power of two
+	case 1:
+		return base - int64(rapid.IntRange(0, 6).Draw(t, label+"d")) - 1 + 1
+	case 2:
+		return base + base/2 + int64(rapid.IntRange(0, 5).Draw(t, label+"d"))
+	case 3:
+		return base + rapid.Int64Range(0, base-1).Draw(t, label+"r")
+	case 4:
+		return base + int64(1)<<uint(rapid.IntRange(0, k-1).Draw(t, label+"j")) + int64(rapid.IntRange(0, 3).Draw(t, label+"d"))
+	}
+	return rapid.Int64Range(1, int64(1)<<60).Draw(t, label+"any")
+}
+
+func genHuge(t *rapid.T) hugeCase {
+	c := hugeCase{Tree: rapid.Bool().Draw(t, "tree"), T: genHugeSize(t, "t")}
+	if c.T < 2 {
+		c.T = 2
+	}
+	switch rapid.IntRange(0, 4).Draw(t, "nk") {
+	case 0:
+		c.N = c.T - 1 - int64(rapid.IntRange(0, 3).Draw(t, "d"))
+	case 1:
+		c.N = int64(rapid.IntRange(0, 5).Draw(t, "small"))
+	case 2:
+		// right at the split of the root
+		k := int64(1)
+		for k*2 < c.T {
+			k *= 2
+		}
+		c.N = k + int64(rapid.IntRange(-2, 2).Draw(t, "d"))
+	default:
+		c.N = rapid.Int64Range(0, c.T-1).Draw(t, "n")
+	}
+	if c.N < 0 {
+		c.N = 0
+	}
+	if c.N >= c.T {
+		c.N = c.T - 1
+	}
+	if c.Tree && c.N < 1 {
+		c.N = 1
+	}
+	c.Mut = mutation{Op: []string{"none", "none", "flip-proof-bit", "drop", "dup", "index-delta", "t-delta", "flip-root", "flip-leaf", "append"}[rapid.IntRange(0, 9).Draw(t, "op")],
+		I: rapid.IntRange(0, 70).Draw(t, "i"), Bit: rapid.IntRange(0, 255).Draw(t, "bit"), Delta: int64(rapid.IntRange(-2, 2).Draw(t, "delta")), T2: 1}
+	return c
+}
+
+var uniformLog = merkleref.NewUniform([]byte("the same record every time\n"))
+
+func checkHuge(c hugeCase) pbt.Result {
+	r := pbt.Result{}
+	if c.T < 1 || c.T > 1<<61 || c.N < 0 || c.N >= c.T && !c.Tree || c.Tree && (c.N < 1 || c.N > c.T) {
+		r.Skip = true
+		return r
+	}
+	u := uniformLog
+	reader := tlog.HashReaderFunc(func(indexes []int64) ([]tlog.Hash, error) {
+		out := make([]tlog.Hash, len(indexes))
+		for i, x := range indexes {
+			if x < 0 {
+				return nil, fmt.Errorf("negative index %d", x)
+			}
+			out[i] = tlog.Hash(u.StoredAt(x))
+		}
+		return out, nil
+	})
+	root := tlog.Hash(u.MTHSize(c.T))
+	var proof []tlog.Hash
+	var leaf tlog.Hash
+	if c.Tree {
+		p, err := tlog.ProveTree(c.T, c.N, reader)
+		want := u.Proof(c.N, c.T)
+		if err != nil || !eqProof(p, want) {
+			r.Fail = pbt.Failf("provetree-huge", "ProveTree(%d,%d) on a uniform log: %d hashes, err=%v; RFC 6962 PROOF has %d hashes or differs", c.T, c.N, len(p), err, len(want))
+			return r
+		}
+		proof, leaf = p, tlog.Hash(u.MTHSize(c.N))
+		if err := tlog.CheckTree(proof, c.T, root, c.N, leaf); err != nil {
+			r.Fail = pbt.Failf("complete-tree-huge", "CheckTree rejects the genuine proof for t=%d n=%d: %v", c.T, c.N, err)
+			return r
+		}
+		if th, err := tlog.TreeHash(c.T, reader); err != nil || th != root {
+			r.Fail = pbt.Failf("treehash-huge", "TreeHash(%d) on a uniform log differs from RFC 6962 (%v)", c.T, err)
+			return r
+		}
+	} else {
+		p, err := tlog.ProveRecord(c.T, c.N, reader)
+		want := u.Path(c.N, c.T)
+		if err != nil || !eqProof(p, want) {
+			r.Fail = pbt.Failf("proverecord-huge", "ProveRecord(%d,%d) on a uniform log: %d hashes, err=%v; RFC 6962 PATH has %d hashes or differs", c.T, c.N, len(p), err, len(want))
+			return r
+		}
+		proof, leaf = p, tlog.Hash(u.MTHSize(1))
+		if err := tlog.CheckRecord(proof, c.T, root, c.N, leaf); err != nil {
+			r.Fail = pbt.Failf("complete-record-huge", "CheckRecord rejects the genuine proof for t=%d n=%d: %v", c.T, c.N, err)
+			return r
+		}
+	}
+	r.NonTrivial = true
+	r.Classes = []string{fmt.Sprintf("t~2^%d", bitsLen(c.T))}
+	// one mutation, judged by the RFC 9162 verifier
+	proof = append([]tlog.Hash(nil), proof...)
+	t, n := c.T, c.N
+	m := c.Mut
+	switch m.Op {
+	case "flip-proof-bit":
+		if len(proof) > 0 {
+			proof[m.I%len(proof)] = flip(proof[m.I%len(proof)], m.Bit)
+		}
+	case "drop":
+		if len(proof) > 0 {
+			i := m.I % len(proof)
+			proof = append(proof[:i:i], proof[i+1:]...)
+		}
+	case "dup":
+		if len(proof) > 0 {
+			i := m.I % len(proof)
+			proof = append(proof[:i+1:i+1], proof[i:]...)
+		}
+	case "append":
+		proof = append(proof, flip(root, m.Bit))
+	case "index-delta":
+		n += m.Delta
+	case "t-delta":
+		t += m.Delta
+	case "flip-root":
+		root = flip(root, m.Bit)
+	case "flip-leaf":
+		leaf = flip(leaf, m.Bit)
+	}
+	var got error
+	var want bool
+	if c.Tree {
+		got = tlog.CheckTree(proof, t, root, n, leaf)
+		want = merkleref.VerifyConsistency(toRef(proof), n, t, merkleref.Hash(leaf), merkleref.Hash(root))
+	} else {
+		got = tlog.CheckRecord(proof, t, root, n, leaf)
+		want = merkleref.VerifyInclusion(toRef(proof), t, merkleref.Hash(root), n, merkleref.Hash(leaf))
+	}
+	if (got == nil) != want {
+		r.Fail = pbt.Failf("soundness-huge", "check (tree=%v, t=%d, n=%d, %d hashes, op=%s) err=%v, RFC 9162 verifier says accept=%v", c.Tree, t, n, len(proof), m.Op, got, want)
+	}
+	return r
+}
+
+func bitsLen(x int64) int {
+	n := 0
+	for ; x > 0; x >>= 1 {
+		n++
+	}
+	return n
+}
+
+func init() {
+	subs = append(subs, pbt.New("huge", 15000, 40000, genHuge, checkHuge))
+}
